@@ -841,7 +841,8 @@ def case_pbc(rng, ctx):
             idisp = struc.index_displacement(Xf, idx, periodic=True, **kw)
             idist = struc.index_distance(Xf, idx, periodic=True, **kw)
             same = struc.displacement(X[..., idx[:, 0], :], X[..., idx[:, 1], :], rbox)
-            plain_i = struc.index_distance(Xf, idx)       # periodic=False must ignore every box
+            # periodic=False must ignore every box: the one of the atoms and one passed explicitly
+            plain_i = struc.index_distance(Xf, idx, periodic=False, **kw) if ctx.index % 2 else struc.index_distance(Xf, idx)
         ctx.oracle("index_equals_coordinate_form")
         if np.shape(idisp) != np.shape(same) or not np.array_equal(idisp, same, equal_nan=True):
             ctx.fail("index_equals_coordinate_form", "index_displacement(periodic=True) differs from displacement(.., box)")
